@@ -10,9 +10,11 @@ E2 suites:
                  tree_update(t, t) == t, tree_update(t, {}) == t, Dict(t) + {} == t, t untouched
   update_pairs   ALL pairs (t, u) of the t-family x the u-family x ignore lists x {tree_update, Dict + dict, items_to_tree(items, tree=t),
                  tree_setitem on a copy} against a recursive merge model; deep identity+content snapshots of t and u after every call
-  update_chains  all chains r1 = tree_update(t, u); r2 = tree_update(r1, v) | tree_update(v, r1); r3 = tree_update(r2, w) over the <= 2-leaf
-                 shapes, every earlier operand and result kept and re-inspected after every later call
-  table_tree     patterns with 1..4 wildcards x all tables of <= 3 rows with unique paths x base trees (none, empty, overlapping, conflicting)
+  update_chains  all chains r1 = tree_update(t, u); r2 = tree_update(r1, v) | tree_update(v, r1); (thorough) r3 = tree_update(r2, w) over the
+                 <= 2-leaf shapes, every earlier operand and result kept alive and re-inspected after every later call (E2 over sequences:
+                 one case = one (t, u), the loop over v and w is inside, so r1 / r2 really are shared by all their continuations)
+  table_tree     patterns with 1..4 wildcards x all tables of <= 3 rows with unique paths x base trees (none, empty, overlapping, conflicting):
+                 table_to_tree == merge model, base untouched, tree_to_table / dictable(tree, pattern) give the rows back, and back again
 """
 import itertools
 
@@ -199,8 +201,9 @@ def klass(flags):
 
 
 def snapshot(tree):
-    """every branch object with its (key, value object) list, every list leaf with a copy of its content"""
-    res = []
+    """every branch object with its (key, value object) list, every list leaf with a copy of its content; the first record also keeps a plain deep copy
+    of the whole tree (only used to word a violation)"""
+    res = [(None, None, plain(tree))]
     stack = [(tree, ())]
     while stack:
         node, path = stack.pop()
@@ -217,19 +220,21 @@ def snapshot(tree):
 def changed(snap):
     """None if every branch object still holds the same keys in the same order and the identical value objects; else a description"""
     for obj, path, items in snap:
+        if obj is None:
+            continue
         if isinstance(obj, dict):
             if len(obj) != len(items):
-                return _describe(obj, path, items)
+                return _describe(snap, path)
             for (k, v), (k0, v0) in zip(dict.items(obj), items):
                 if v is not v0 or k != k0:
-                    return _describe(obj, path, items)
+                    return _describe(snap, path)
         elif obj != items:
-            return 'the list leaf at %s became %r (was %r)' % ('.'.join(path), obj, items), len(path)
+            return _describe(snap, path)
     return None
 
 
-def _describe(obj, path, items):
-    return 'the branch at %r now holds %s (was %s)' % ('.'.join(path) or '<root>', show(plain(obj), 200), show(plain(dict(items)), 200)), len(path)
+def _describe(snap, path):
+    return 'the branch / list leaf at %r changed; the operand is now %s (was %s)' % ('.'.join(path) or '<root>', show(plain(snap[1][0]), 250), show(snap[0][2], 250)), len(path)
 
 
 def _mutated(out, snap, who, op, label):
@@ -744,8 +749,16 @@ def check_table(case):
                     out.viol('table-roundtrip-differs', 'tree_to_table(%s, %r) = %s, expected the rows %s%s' % (label, pattern, show(back), show(expect_rows),
                                                                                                                '' if exact else ' (at least)'),
                              fn='tree_to_table', base=bname.split('-')[0])
+                elif exact:
+                    # the other direction: the rows read from the tree rebuild exactly the part of the tree that the pattern matches
+                    again = table_to_tree(None, pattern, back)
+                    out.call()
+                    expect2 = build([[r[s[1:]] if s.startswith('%') else s for s in segs] for r in expect_rows])
+                    if not isinstance(again, dict) or plain(again) != expect2:
+                        out.viol('table-roundtrip-differs', 'table_to_tree(None, %r, tree_to_table(tree, %r)) = %s, expected %s; tree = %s'
+                                 % (pattern, pattern, show(plain(again)), show(expect2), label), fn='table_to_tree.tree_to_table', base=bname.split('-')[0])
             except Exception as e:
-                out.viol('raised', 'tree_to_table(%s, %r) raised %s: %s' % (label, pattern, type(e).__name__, e), op='tree_to_table', exc=type(e).__name__)
+                out.viol('raised', 'tree_to_table(%s, %r) [or rebuilding from its rows] raised %s: %s' % (label, pattern, type(e).__name__, e), op='tree_to_table', exc=type(e).__name__)
             try:
                 tbl = dictable(tree, pattern)
                 out.call()
@@ -786,6 +799,6 @@ def suites(tier, seed):
               rule='%d patterns with 1..4 wildcards x all tables of 0..3 rows (%s) with pairwise different paths (key cells %s, leaf cells 1/None/x) x base trees '
                    '(none, empty, overlapping rows, unrelated, a leaf where the pattern needs a branch at every depth, a branch where it puts a leaf) x table '
                    'spellings (dictable, list of dicts, a single dict): table_to_tree == merge model, base untouched, tree_to_table and dictable(tree, pattern) '
-                   'return the rows as a multiset; non-trivial = the table overlaps the base tree' % (len(PATTERNS), 'every row order; 3-row tables in one order' if quick else 'every row order', 'a/b' if quick else 'a/b/c for <= 2 key columns, a/b for more'),
+                   'return the rows as a multiset and those rows rebuild the matched part of the tree; non-trivial = the table overlaps the base tree' % (len(PATTERNS), 'every row order; 3-row tables in one order' if quick else 'every row order', 'a/b' if quick else 'a/b/c for <= 2 key columns, a/b for more'),
               bounds=dict(patterns=len(PATTERNS), max_rows=3, key_cells=2 if quick else 3, leaf_cells=3)),
     ]
